@@ -46,6 +46,18 @@ func (c *ProgCase) Judge(rs []Res, env *Env) Outcome {
 	r := rs[0]
 	o := Outcome{Cell: c.Cell_}
 	if ok, why := env.accepted(&r); !ok {
+		if (c.Prop == "" || c.Prop == "C03" || c.Prop == "C17") && c.SysK == "" && r.ParseErr == "" && !r.Crashed() {
+			// a random program is built from statements gosk assembles correctly today (the clean pool): a refusal leaves some of them
+			// unassembled or mis-sized, with labels after them
+			pr := c.Prop
+			if pr == "" {
+				pr = "C03"
+			}
+			o.Status = Violated
+			o.Viols = []Violation{{Sig: fmt.Sprintf("%s|refused-clean-program|%s", pr, diagClass(why)),
+				Detail: fmt.Sprintf("a program made of statements from the clean pool is refused (%s); program:\n%s", why, clipStr(c.P.Source(), 1500))}}
+			return o
+		}
 		if c.Prop == "C04" && r.ParseErr == "" && !r.Crashed() {
 			// every program of the C04 families is valid by construction (the target is reachable in the mode): a refusal leaves the branch unassembled
 			o.Status = Violated
